@@ -91,8 +91,8 @@ theorem generated_defaults_stable (ops : List Op) (c : Nat) :
     class-level default (an instance of class 0), member 1 is a list -/
 def exD : List Tree := [.imm 0, .obj 1 [.imm 7], .imm 0]
 def exT (absent : Mode) : Table :=
-  [⟨[⟨0, .imm 0, .imm 0, .plain⟩], false, true, false, false⟩,
-   ⟨[⟨1, .copyDefault, absent, .plain⟩, ⟨2, .fresh (.obj 0 []), .fresh (.obj 0 []), .lazy⟩], false, true, false, true⟩]
+  [⟨[⟨0, .imm 0, .imm 0, .plain⟩], false, true, false, false, false, true⟩,
+   ⟨[⟨1, .copyDefault, absent, .plain⟩, ⟨2, .fresh (.obj 0 []), .fresh (.obj 0 []), .lazy⟩], false, true, false, true, false, true⟩]
 
 /-- parse with member 0 absent, write through the parsed instance, shallow `mk_copy`, update, construct again -/
 def exOps : List Op :=
@@ -110,5 +110,35 @@ theorem shared_default_breaks :
     tableOK (exT .theDefault) = false ∧
     constructVal (exT .theDefault) (run (exT .theDefault) (init exD) exOps) 1 ≠
       constructVal (exT .theDefault) (init exD) 1 := by decide
+
+/-! ### copies: what holds, and what does not hold on this tree -/
+
+/-- the statement at full strength for copies: a copy (`mk_copy` / `copy.copy`) shares no mutable object with its source -/
+def copies_independent_full : Prop :=
+  ∀ (T : Table) (D : List Tree) (ops : List Op) (i : Nat) (a e : Inst), tableOK T = true →
+    (run T (init D) ops).insts[i]? = some a →
+    (run T (init D) (ops ++ [.copy i])).insts[(run T (init D) ops).insts.length]? = some e →
+    Disjoint e.tree.ids a.tree.ids
+
+/-- it is false for a table like the generated one (`copyDeep = false`, `copyLevel1 = false`: `mk_copy` is
+    `copy.copy(self)`): the copy holds the very member objects of its source (known finding `copy-shares-*` in
+    known_findings/C12.json; the behaviour is pinned by tests/test_statecontainers.py, test_descriptorcontainers.py) -/
+theorem copies_independent_full_fails : ¬ copies_independent_full := by
+  intro h
+  have := h (exT .copyDefault) exD [.construct 1] 0
+    ⟨1, 0, .obj 2 [.obj 3 [.imm 7], .obj 4 []]⟩ ⟨1, 0, .obj 5 [.obj 3 [.imm 7], .obj 4 []]⟩ (by decide) (by decide) (by decide)
+  exact this 3 (by decide) (by decide)
+
+/-- the part that holds (`_partial`): copies are independent where the table records a deep copy (`deep_copy_independent`,
+    `deep_update_keeps_groups`), and in every case a copy can only share with instances of its own group -/
+theorem copies_independent_partial (T : Table) (hT : tableOK T = true) (D : List Tree) (ops : List Op) (i j : Nat)
+    (a b : Inst) (hi : (run T (init D) ops).insts[i]? = some a) (hj : (run T (init D) ops).insts[j]? = some b)
+    (hg : a.grp ≠ b.grp) : Disjoint a.tree.ids b.tree.ids :=
+  instances_disjoint T hT D ops i j a b hi hj hg
+
+/-- the generated table: every container class makes at least first-level copies in `update_from_other_container`
+    (part of `tableOK`, so a change that hands members over by reference breaks `generated_table_ok`) -/
+theorem generated_update_level1 :
+    (Generated.CopyTable.copyTable.all fun c => !c.isContainer || c.updLevel1) = true := by decide +kernel
 
 end Sdc.C12
